@@ -52,6 +52,7 @@ let () =
              let t = ity_of (List.nth args 0) in
              let i = z_of_hex (List.nth args 1) and l = z_of_hex (List.nth args 2) in
              out_s (h_bounds t true i l) ^ " " ^ out_s (h_bounds t false i l)
+           | "ccwraps" -> if generic_cc_wraps then "1" else "0"
            | "arith" ->
              (* arith <add|sub|mul|unm|tdiv> <type> <a> <b>: the plain operator in the dialect of the scraped base flags *)
              let t = ity_of (List.nth args 1) in
